@@ -329,6 +329,14 @@ def main : IO Unit := do
   out := add (firstDiff "Vec: Extend<T>" ((vc.flatMap fun (c, v) => its.map fun it => (c, v, it)).filterMap fun (c, v, (itn, it)) =>
     let m := V.extend c v it w0
     if m.2.1.bad.isEmpty then some (vtag c v ++ s!" iter={itn}", showM (RsM.toModel (Gen.Fn.vec_extend c it (v, w0))), showM m) else none)) out
+  let showB := fun (r : Option V.VS × V.W) => s!"{repr r.1} evs={repr r.2.evs} bad={repr r.2.bad} drops={r.2.dropCalls}"
+  let builtV := fun (r : RsM.VW × Outcome Unit) => (match r with | ((v, w), .ok _) => (some v, w) | ((_, w), .panic) => (none, w) | ((_, w), .bad why) => (none, w.flag why) | ((_, w), _) => (none, w.flag "?") : Option V.VS × V.W)
+  out := add (firstDiff "Vec::from_iter_in" ((vc.flatMap fun (c, v) => its.map fun it => (c, v, it)).filterMap fun (c, v, (itn, it)) =>
+    let m := V.fromIter c it w0
+    if m.2.bad.isEmpty then some (vtag c v ++ s!" iter={itn}", showB (builtV (Gen.Fn.vec_from_iter_in c it () (v, w0))), showB m) else none)) out
+  out := add (firstDiff "Vec::clone" (vc.filterMap fun (c, v) =>
+    let m := V.cloneVec c v w0
+    if m.2.bad.isEmpty then some (vtag c v, showB (builtV (Gen.Fn.vec_clone c (v, w0))), showB m) else none)) out
   -- the lossy UTF-8 chunker on all strings of up to 3 boundary bytes (and a few longer ones)
   let bs : List UInt8 := [0x00, 0x41, 0x7F, 0x80, 0x8F, 0x90, 0x9F, 0xA0, 0xBF, 0xC0, 0xC2, 0xDF, 0xE0, 0xE1, 0xEC, 0xED, 0xEE, 0xEF, 0xF0, 0xF1, 0xF3, 0xF4, 0xF5, 0xFF]
   let strs : List (List UInt8) := (bs.map fun a => [a]) ++ (bs.flatMap fun a => bs.map fun b => [a, b]) ++
